@@ -30,7 +30,7 @@ def gen_case(seed, idx):
     w1, w2 = rs.choice(wl), rs.choice(wl)
     A = ["port", (k, w1), "pa"]
     B = ["port", (k, w2), "pb"]
-    opk = rs.weighted([(8, "arith"), (4, "arithint"), (4, "div"), (3, "divint"), (3, "bitwise"), (4, "cmp"), (2, "cmpint"), (2, "cmpnf"), (3, "shift"), (2, "unary"), (2, "resize"), (3, "conv"), (2, "view"), (2, "concat"), (2, "index"), (2, "slice")])
+    opk = rs.weighted([(8, "arith"), (4, "arithint"), (4, "div"), (3, "divint"), (3, "bitwise"), (4, "cmp"), (2, "cmpint"), (2, "cmpnf"), (2, "integer"), (3, "shift"), (2, "unary"), (2, "resize"), (3, "conv"), (2, "view"), (2, "concat"), (2, "index"), (2, "slice")])
 
     def lit(w, kk, nz=False):
         lim = (1 << w) - 1 if kk == "U" else (1 << (w - 1)) - 1
@@ -69,6 +69,12 @@ def gen_case(seed, idx):
         c = lit(w1, k)
         op = rs.choice(["lt", "le", "gt", "ge", "eq", "ne"])
         e = ["cmp", ("bool",), op, c, A] if rs.below(2) else ["cmp", ("bool",), op, A, c]
+    elif opk == "integer":
+        # run-time integers against compile-time cohdl.Integer constants (and plain ints on either side)
+        IA, IB = ["port", ("I", 32), "pa"], ["port", ("I", 32), "pb"]
+        op = rs.choice(["add", "sub", "sub", "mul"])
+        ci = ["ci", rs.range(-20, 20)]
+        e = [op, ("I", 32)] + rs.choice([[ci, IA], [IA, ci], [IA, IB]])
     elif opk == "cmpnf":
         e = ["cmpnf", ("bool",), rs.choice(["lt", "le", "gt", "ge", "eq", "ne"]), A, rs.choice(["Null", "Full"]), rs.below(2)]
     elif opk == "shift":
@@ -104,6 +110,8 @@ def gen_case(seed, idx):
             w = t[1]
             c = rs.below(7)
             v = 0 if c == 0 else expr.mask(w) if c == 1 else (1 << (w - 1)) if c == 2 else (1 << (w - 1)) - 1 if c == 3 else rs.bits(w)
+            if t[0] == "I":
+                v = rs.range(-50, 50) & expr.mask(32)
             if n == "pb" and e[0] in ("truncdiv", "mod", "rem") and v == 0:
                 v = 1
             if n == "pa" and e[0] in ("truncdiv", "mod", "rem") and e[2][0] == "ci" and v == 0:
@@ -140,8 +148,8 @@ def fold(text):
         return ("S", x.width, int(str(x.bitvector), 2))
     if isinstance(x, BitVector):
         return ("BV", x.width, int(str(x), 2))
-    if isinstance(x, int):
-        return ("int", 0, x)
+    if isinstance(x, int) or type(x).__name__ == "Integer":
+        return ("I", 32, int(x) & 0xFFFFFFFF)
     return (type(x).__name__, 0, None)
 
 
@@ -180,7 +188,7 @@ def evaluate(seed, idx):
     if len(kinds) != 1:
         return "accepted", "folded-type-depends-on-value", {"types": sorted(map(str, kinds)), "expr": info["expr"]}, info
     rt = next(iter(kinds))
-    if rt[0] not in ("U", "S", "BV", "Bit", "bool"):
+    if rt[0] not in ("U", "S", "BV", "Bit", "bool", "I"):
         return "rejected", None, {"reason": f"fold yields {rt[0]}"}, info
     info["result_type"] = list(rt)
     try:
@@ -189,10 +197,18 @@ def evaluate(seed, idx):
         msg = f"{ex.exc_type}: {ex.message[:110]}"
         return "rejected", None, {"reason": "run-time design: " + msg}, info
     d = dutm.Dut(design, rng.derive(seed, "C09", "order", idx), "c09", offsets=False, clk=None)
-    d.b.start(dict(good[0][0]))
+    ptypes = expr.ports_used(e)
+
+    def pins(env):
+        # integer ports are driven with Python ints, vectors with bit patterns
+        return {n: (expr.sgn(v, 32) if ptypes[n][0] == "I" else v) for n, v in env.items()}
+
+    d.b.start(pins(good[0][0]))
     for env, text, (kk, w, pat) in good:
-        d.b.apply(env)
+        d.b.apply(pins(env))
         got = d.get("ok")
+        if kk == "I" and got is not None:
+            got &= 0xFFFFFFFF
         if got != pat:
             return "accepted", "folded-value-differs-from-run-time-value", {"constant_expression": text, "folded": [kk, w, pat], "run_time_pattern": got, "operands": env}, info
         if kk in ("U", "S", "BV") and d.get("ob") != pat:
